@@ -3004,6 +3004,10 @@ static int32_t parseGeneralNames(psPool_t *pool, const unsigned char **buf,
                 return -1;
             }
             activeName->oid = psMalloc(pool, activeName->oidLen);
+            if (activeName->oid == NULL)
+            {
+                return PS_MEM_FAIL;
+            }
             if ((uint32) (extEnd - p) < activeName->oidLen)
             {
 
@@ -5601,6 +5605,11 @@ oid_parsing_done:
             break;
         case ATTRIB_ORG_UNIT:
             orgUnit = psMalloc(pool, sizeof(x509OrgUnit_t));
+            if (orgUnit == NULL)
+            {
+                psFree(stringOut, pool);
+                return PS_MEM_FAIL;
+            }
             orgUnit->name = stringOut;
             orgUnit->type = (short) stringType;
             orgUnit->len = llen;
@@ -5646,6 +5655,11 @@ oid_parsing_done:
             break;
         case ATTRIB_DOMAIN_COMPONENT:
             domainComponent = psMalloc(pool, sizeof(x509DomainComponent_t));
+            if (domainComponent == NULL)
+            {
+                psFree(stringOut, pool);
+                return PS_MEM_FAIL;
+            }
             domainComponent->name = stringOut;
             domainComponent->type = (short) stringType;
             domainComponent->len = llen;
